@@ -139,6 +139,16 @@ def failure_class(res):
     msg = res.msg or ""
     if res.verdict == "panic" and ("stack overflow" in res.stderr or "overflowed its stack" in res.stderr):
         return True, "stack-exhaustion"
+    if res.verdict == "panic":
+        # a numeric overflow of the PROGRAM's arithmetic is raised by the operators / built-ins on values
+        # (bytecode/src/variables/**) or inside the standard library they call; a Rust panic anywhere else in the
+        # interpreter (operand stack, frames, instruction decoding) is the interpreter losing track of its own state --
+        # e.g. `attempt to subtract with overflow` in context.rs when an instruction finds the operand stack empty --
+        # and not one of the failures the language defines
+        m = re.match(r"(\S+?\.rs):\d+:\d+", msg)
+        where = m.group(1) if m else ""
+        if where and "variables/" not in where and not where.startswith(("/", "library/")):
+            return False, "interpreter-panic:%s:%s" % (where, canon_msg(msg[m.end():].lstrip(": ")))
     for name, rx in ALLOWED:
         if rx.search(msg):
             return True, name
